@@ -493,4 +493,440 @@ theorem nextUppers_spec : ∀ (us : List Upper) (fs : FS) (b : Bottom), UsOk fs 
     cases h1
     exact h2
 
+/-- a chain on which `next` may be called: nothing dead, caches distinct, temporary files in place -/
+def ChainOk (fs : FS) (ch : Chain) : Prop := UsOk fs ch.uppers ∧ BotOk ch.bottom
+
+/-- the statement of `drive_spec` -/
+def DriveSpec (k : Nat) (fs : FS) (ch : Chain) : Prop :=
+  (drive k fs ch).outs.map (·.1) = (rem fs ch).vals.take k ∧
+  (∀ o, o ∈ (drive k fs ch).outs → ∀ c, (o.2 c).final = (fs c).final) ∧
+  (∀ c, c ∉ dumpIds ch.uppers → (drive k fs ch).fs c = fs c) ∧
+  dumpIds (drive k fs ch).chain.uppers = dumpIds ch.uppers ∧
+  (k ≤ (rem fs ch).vals.length →
+      (drive k fs ch).end_ = .stopped ∧ ChainOk (drive k fs ch).fs (drive k fs ch).chain ∧
+      (∀ c, ((drive k fs ch).fs c).final = (fs c).final) ∧
+      rem (drive k fs ch).fs (drive k fs ch).chain = ⟨(rem fs ch).vals.drop k, (rem fs ch).exc⟩) ∧
+  ((rem fs ch).vals.length < k → (rem fs ch).exc = none →
+      (drive k fs ch).end_ = .exhausted ∧
+      ∀ c T, c ∈ dumpIds ch.uppers → Track c T fs (remB fs ch.bottom) ch.uppers →
+        (drive k fs ch).fs c = ⟨some T, none⟩) ∧
+  (∀ e, (rem fs ch).vals.length < k → (rem fs ch).exc = some e →
+      (drive k fs ch).end_ = .raised e ∧ ∀ c, ((drive k fs ch).fs c).final = (fs c).final)
+
+/-- **the consumer loop refines the remaining flow** -/
+theorem drive_spec : ∀ (k : Nat) (fs : FS) (ch : Chain), ChainOk fs ch → DriveSpec k fs ch
+  | 0, fs, ch, ok => by
+    refine ⟨by simp [drive], by simp [drive], fun _ _ => rfl, rfl, ?_, ?_, ?_⟩
+    · intro _
+      exact ⟨rfl, ok, fun _ => rfl, by simp [drive]⟩
+    · intro h; omega
+    · intro e h; omega
+  | k + 1, fs, ch, ok => by
+    obtain ⟨us, b⟩ := ch
+    obtain ⟨oku, okb⟩ := ok
+    rcases hn : nextUppers fs us b with ⟨res, evs, fs', us', b'⟩
+    obtain ⟨f1, f2, hi, hd, hr⟩ := nextUppers_spec us fs b oku okb _ _ _ _ _ hn
+    have hnext : next fs ⟨us, b⟩ = (res, evs, fs', ⟨us', b'⟩) := by simp [next, hn]
+    unfold DriveSpec
+    simp only [rem] at *
+    rcases hF : remUs us (remB fs b) with ⟨xs, e⟩
+    rw [hF] at hi hd hr
+    cases xs with
+    | cons v rest =>
+      obtain ⟨rfl, ok', okb', hrem, hfin, htr⟩ := hi v rest rfl
+      have ih := drive_spec k fs' ⟨us', b'⟩ ⟨ok', okb'⟩
+      unfold DriveSpec at ih
+      simp only [rem, hrem] at ih
+      obtain ⟨i1, i2, i3, i4, i5, i6, i7⟩ := ih
+      simp only [drive, hnext]
+      refine ⟨by simp [i1], ?_, ?_, by rw [i4, f2], ?_, ?_, ?_⟩
+      · intro o ho c
+        simp only [List.mem_cons] at ho
+        rcases ho with rfl | ho
+        · exact hfin c
+        · rw [i2 o ho c, hfin c]
+      · intro c hc
+        rw [i3 c (by rw [f2]; exact hc), f1 c hc]
+      · intro hk
+        simp only [List.length_cons, Nat.add_le_add_iff_right] at hk
+        obtain ⟨j1, j2, j3, j4⟩ := i5 hk
+        exact ⟨j1, j2, fun c => by rw [j3 c, hfin c], by simpa using j4⟩
+      · intro hk he
+        simp only [List.length_cons, Nat.add_lt_add_iff_right] at hk
+        obtain ⟨j1, j2⟩ := i6 hk he
+        refine ⟨j1, ?_⟩
+        intro c T hc ht
+        exact j2 c T (by rw [f2]; exact hc) (htr c T ht)
+      · intro e' hk he
+        simp only [List.length_cons, Nat.add_lt_add_iff_right] at hk
+        obtain ⟨j1, j2⟩ := i7 e' hk he
+        exact ⟨j1, fun c => by rw [j2 c, hfin c]⟩
+    | nil =>
+      cases e with
+      | none =>
+        obtain ⟨rfl, hcommit⟩ := hd rfl rfl
+        simp only [drive, hnext]
+        refine ⟨by simp, by simp, f1, f2, by simp, ?_, ?_⟩
+        · intro _ _
+          exact ⟨by trivial, hcommit⟩
+        · intro e' _ he; simp at he
+      | some e =>
+        obtain ⟨rfl, hfin⟩ := hr e rfl rfl
+        simp only [drive, hnext]
+        refine ⟨by simp, by simp, f1, f2, by simp, ?_, ?_⟩
+        · intro _ he; simp at he
+        · intro e' _ he
+          simp at he
+          subst he
+          exact ⟨by trivial, hfin⟩
+
+/-! ## Finalisation -/
+
+theorem closeUppers_spec : ∀ (us : List Upper) (fs : FS),
+    (∀ c, ((closeUppers fs us).1 c).final = (fs c).final) ∧
+    (∀ c, c ∉ dumpIds us → (closeUppers fs us).1 c = fs c)
+  | [], fs => ⟨fun _ => rfl, fun _ _ => rfl⟩
+  | .map j a calls r dead :: us, fs => by
+    obtain ⟨h1, h2⟩ := closeUppers_spec us fs
+    exact ⟨fun c => by simpa [closeUppers] using h1 c, fun c hc => by simpa [closeUppers] using h2 c (by simpa [dumpIds] using hc)⟩
+  | .dump c st :: us, fs => by
+    by_cases hst : st = .active
+    · obtain ⟨h1, h2⟩ := closeUppers_spec us (fs.removeTmp c)
+      simp only [closeUppers, hst, if_true]
+      refine ⟨fun d => ?_, fun d hd => ?_⟩
+      · rw [h1 d]; by_cases hdc : d = c <;> simp [hdc]
+      · have hdc : d ≠ c := fun e => hd (by simp [dumpIds, e])
+        rw [h2 d (fun e => hd (by simp [dumpIds, e]))]
+        simp [hdc]
+    · obtain ⟨h1, h2⟩ := closeUppers_spec us fs
+      simp only [closeUppers, hst, if_false]
+      exact ⟨h1, fun d hd => h2 d (fun e => hd (by simp [dumpIds, e]))⟩
+
+/-- finalising a chain never touches a cache file -/
+theorem close_final (fs : FS) (ch : Chain) (c : Nat) : ((close fs ch).1 c).final = (fs c).final :=
+  (closeUppers_spec ch.uppers fs).1 c
+
+theorem finalizeAll_final : ∀ (chs : List Chain) (fs : FS) (c : Nat), ((finalizeAll fs chs) c).final = (fs c).final
+  | [], _, _ => rfl
+  | ch :: chs, fs, c => by
+    simp only [finalizeAll]
+    rw [finalizeAll_final chs, close_final]
+
+/-! ## Building chains -/
+
+theorem cacheIds_append (xs ys : List ElSpec) : cacheIds (xs ++ ys) = cacheIds xs ++ cacheIds ys := by
+  induction xs with
+  | nil => rfl
+  | cons x xs ih => cases x <;> simp [cacheIds, ih]
+
+theorem buildEls_append (fs : FS) : ∀ (xs ys : List ElSpec) (j : Nat) (ch : Chain),
+    buildEls fs j (xs ++ ys) ch = buildEls fs (j + xs.length) ys (buildEls fs j xs ch)
+  | [], ys, j, ch => rfl
+  | .map a r :: xs, ys, j, ch => by
+    simp only [List.cons_append, buildEls, List.length_cons]
+    rw [buildEls_append fs xs ys]; congr 1; omega
+  | .cache c rc :: xs, ys, j, ch => by
+    simp only [List.cons_append, buildEls, List.length_cons]
+    split <;> (rw [buildEls_append fs xs ys]; congr 1; omega)
+
+@[simp] theorem shiftRaise_zero (r : Option Nat) : shiftRaise 0 r = r := by
+  cases r <;> simp [shiftRaise]
+
+/-- the remaining flow of a freshly built chain is the reference semantics of the elements -/
+theorem rem_buildEls (fs : FS) : ∀ (els : List ElSpec) (j : Nat) (ch : Chain),
+    rem fs (buildEls fs j els ch) = elsFlow fs els (rem fs ch)
+  | [], _, _ => rfl
+  | .map a r :: els, j, ch => by
+    rw [buildEls, rem_buildEls fs els, elsFlow]
+    simp [rem, remU]
+  | .cache c rc :: els, j, ch => by
+    rw [buildEls, elsFlow]
+    split
+    · rw [rem_buildEls fs els]; simp [rem, remB]
+    · rw [rem_buildEls fs els]; simp [rem, remU]
+
+theorem rem_freshSrc (fs : FS) (s : SrcSpec) : rem fs ⟨[], freshSrc s⟩ = srcFlow s := by
+  obtain ⟨vals, r⟩ := s
+  cases r with
+  | none => simp [rem, remB, freshSrc, srcFlow]
+  | some q => simp [rem, remB, freshSrc, srcFlow]
+
+/-- a freshly built chain is healthy when the caches of the pipeline are pairwise distinct -/
+theorem chainOk_buildEls (fs : FS) : ∀ (els : List ElSpec) (j : Nat) (ch : Chain),
+    (cacheIds els).Nodup → (∀ c, c ∈ cacheIds els → c ∉ dumpIds ch.uppers) → ChainOk fs ch →
+    ChainOk fs (buildEls fs j els ch)
+  | [], _, _, _, _, ok => ok
+  | .map a r :: els, j, ch, nd, dj, ok => by
+    rw [buildEls]
+    exact chainOk_buildEls fs els _ _ (by simpa [cacheIds] using nd) (by simpa [cacheIds, dumpIds] using dj)
+      ⟨⟨rfl, ok.1⟩, ok.2⟩
+  | .cache c rc :: els, j, ch, nd, dj, ok => by
+    rw [buildEls]
+    simp only [cacheIds, List.nodup_cons] at nd
+    split
+    · exact chainOk_buildEls fs els _ _ nd.2 (by simp [dumpIds]) ⟨trivial, by simp [BotOk]⟩
+    · refine chainOk_buildEls fs els _ _ nd.2 ?_ ⟨⟨by simp, dj c (by simp [cacheIds]), by simp, ok.1⟩, ok.2⟩
+      intro d hd
+      simp only [dumpIds, List.mem_cons, not_or]
+      exact ⟨fun e => nd.1 (e ▸ hd), dj d (by simp [cacheIds, hd])⟩
+
+/-- elements without a filled cache keep the bottom, keep the dump generators below them, and keep the
+tracking of a cache that is not among them -/
+theorem buildEls_noFilled (fs : FS) (c : Nat) (T : List Val) : ∀ (els : List ElSpec) (j : Nat) (ch : Chain),
+    NoFilled fs els → c ∉ cacheIds els →
+    (buildEls fs j els ch).bottom = ch.bottom ∧
+    (c ∈ dumpIds ch.uppers → c ∈ dumpIds (buildEls fs j els ch).uppers) ∧
+    (Track c T fs (remB fs ch.bottom) ch.uppers →
+      Track c T fs (remB fs ch.bottom) (buildEls fs j els ch).uppers)
+  | [], _, _, _, _ => ⟨rfl, id, id⟩
+  | .map a r :: els, j, ch, nf, hc => by
+    rw [buildEls]
+    obtain ⟨h1, h2, h3⟩ := buildEls_noFilled fs c T els (j + 1) ⟨.map j a 0 r false :: ch.uppers, ch.bottom⟩
+      (fun c' rc' h => nf c' rc' (by simp [h])) (by simpa [cacheIds] using hc)
+    exact ⟨h1, fun h => h2 (by simpa [dumpIds] using h), fun h => h3 (by simpa [Track] using h)⟩
+  | .cache c' rc :: els, j, ch, nf, hc => by
+    rw [buildEls]
+    have hne : cacheExists fs c' rc = false := nf c' rc (by simp)
+    simp only [hne, Bool.false_eq_true, if_false]
+    simp only [cacheIds, List.mem_cons, not_or] at hc
+    obtain ⟨h1, h2, h3⟩ := buildEls_noFilled fs c T els (j + 1) ⟨.dump c' .fresh :: ch.uppers, ch.bottom⟩
+      (fun c'' rc' h => nf c'' rc' (by simp [h])) hc.2
+    refine ⟨h1, fun h => h2 (by simp [dumpIds, h]), fun h => h3 ?_⟩
+    unfold Track
+    simp only [Ne.symm hc.1, if_false]
+    exact h
+
+theorem elsFlow_append (fs : FS) : ∀ (xs ys : List ElSpec) (f : Flow),
+    elsFlow fs (xs ++ ys) f = elsFlow fs ys (elsFlow fs xs f)
+  | [], _, _ => rfl
+  | .map a r :: xs, ys, f => by simp only [List.cons_append, elsFlow]; exact elsFlow_append fs xs ys _
+  | .cache c rc :: xs, ys, f => by
+    simp only [List.cons_append, elsFlow]
+    split <;> exact elsFlow_append fs xs ys _
+
+/-! ## Hoisting -/
+
+/-- `Cache.alter_sequence` finds the cache at which `Sequence.run` would restart the flow anyway -/
+theorem buildEls_lastFilled (fs : FS) : ∀ (els : List ElSpec) (j : Nat) (ch : Chain),
+    match lastFilled fs j els with
+    | some (p, c) => j ≤ p ∧ buildEls fs j els ch = buildEls fs (p + 1) (els.drop (p + 1 - j)) ⟨[], .load c .fresh []⟩
+    | none => True
+  | [], _, _ => by simp [lastFilled]
+  | .map a r :: els, j, ch => by
+    have ih := buildEls_lastFilled fs els (j + 1) ⟨.map j a 0 r false :: ch.uppers, ch.bottom⟩
+    simp only [lastFilled]
+    cases h : lastFilled fs (j + 1) els with
+    | none => trivial
+    | some pc =>
+      obtain ⟨p, c⟩ := pc
+      rw [h] at ih
+      obtain ⟨hj, e⟩ := ih
+      refine ⟨by omega, ?_⟩
+      rw [buildEls, e]
+      have : p + 1 - j = (p + 1 - (j + 1)) + 1 := by omega
+      rw [this, List.drop_succ_cons]
+  | .cache c' rc :: els, j, ch => by
+    simp only [lastFilled]
+    cases h : lastFilled fs (j + 1) els with
+    | some pc =>
+      obtain ⟨p, c⟩ := pc
+      have hdrop : p + 1 - j = (p + 1 - (j + 1)) + 1 → (ElSpec.cache c' rc :: els).drop (p + 1 - j) = els.drop (p + 1 - (j + 1)) := by
+        intro e; rw [e, List.drop_succ_cons]
+      by_cases hx : cacheExists fs c' rc
+      · have ih := buildEls_lastFilled fs els (j + 1) ⟨[], .load c' .fresh []⟩
+        rw [h] at ih
+        obtain ⟨hj, e⟩ := ih
+        refine ⟨by omega, ?_⟩
+        rw [buildEls, if_pos hx, e, hdrop (by omega)]
+      · have ih := buildEls_lastFilled fs els (j + 1) ⟨.dump c' .fresh :: ch.uppers, ch.bottom⟩
+        rw [h] at ih
+        obtain ⟨hj, e⟩ := ih
+        refine ⟨by omega, ?_⟩
+        rw [buildEls, if_neg hx, e, hdrop (by omega)]
+    | none =>
+      by_cases hx : cacheExists fs c' rc
+      · simp only [hx, if_true]
+        refine ⟨Nat.le_refl _, ?_⟩
+        rw [buildEls, if_pos hx]
+        have : j + 1 - j = 1 := by omega
+        rw [this]; rfl
+      · simp [hx]
+
+/-- **hoisting changes nothing**: the chain that `Cache.alter_sequence(seq)()` runs is the chain that
+`seq.run(src())` runs -/
+theorem buildHoisted_eq (fs : FS) (s : SrcSpec) (els : List ElSpec) :
+    buildHoisted fs s els = buildEls fs 0 els ⟨[], freshSrc s⟩ := by
+  have h := buildEls_lastFilled fs els 0 ⟨[], freshSrc s⟩
+  unfold buildHoisted
+  cases hl : lastFilled fs 0 els with
+  | none => rfl
+  | some pc =>
+    obtain ⟨p, c⟩ := pc
+    rw [hl] at h
+    simpa using h.2.symm
+
+theorem metaAlter_original (fs : FS) (els : List ElSpec) : metaAlter fs els = .original := by
+  simp only [metaAlter]
+  split <;> rfl
+
+/-- the way a pipeline is put together and called does not matter -/
+theorem build_eq (mode : Mode) (hm : mode ≠ .bare) (fs : FS) (s : SrcSpec) (els : List ElSpec) :
+    build mode fs s els = buildEls fs 0 els ⟨[], freshSrc s⟩ := by
+  cases mode with
+  | source => rfl
+  | sequence => rfl
+  | hoist => exact buildHoisted_eq fs s els
+  | viaMeta => simp [build, metaAlter_original]
+  | bare => exact absurd rfl hm
+
+theorem build_bare_eq (fs : FS) (s : SrcSpec) (c : Nat) (rc : Bool) :
+    build .bare fs s [.cache c rc] = buildEls fs 0 [.cache c rc] ⟨[], freshSrc s⟩ := by
+  simp only [build, buildEls]
+  split <;> rfl
+
+/-! ## Events -/
+
+def mapIds : List Upper → List Nat
+  | [] => []
+  | .map j _ _ _ _ :: us => j :: mapIds us
+  | .dump _ _ :: us => mapIds us
+
+def Bottom.isLoad : Bottom → Bool
+  | .load _ _ _ => true
+  | .src _ _ _ _ => false
+
+/-- an event of a map element among `js` (in particular: not an event of the source) -/
+def EvFrom (js : List Nat) : Ev → Prop
+  | .step j _ => j ∈ js
+  | .stepRaise j _ => j ∈ js
+  | _ => False
+
+theorem nextBottom_load_evs (fs : FS) (b : Bottom) (hb : b.isLoad = true) :
+    (nextBottom fs b).2.1 = [] ∧ (nextBottom fs b).2.2.isLoad = true := by
+  cases b with
+  | src _ _ _ _ => simp [Bottom.isLoad] at hb
+  | load c st rest =>
+    cases st with
+    | dead => simp [nextBottom, Bottom.isLoad]
+    | fresh =>
+      simp only [nextBottom]
+      split <;> simp [Bottom.isLoad]
+    | active => cases rest <;> simp [nextBottom, Bottom.isLoad]
+
+theorem mapAfter_evs (j : Nat) (a : Int) (calls : Nat) (r : Option Nat) (x : Res × List Ev × FS × List Upper × Bottom)
+    (js : List Nat) (h : ∀ ev, ev ∈ x.2.1 → EvFrom js ev) :
+    (∀ ev, ev ∈ (mapAfter j a calls r x).2.1 → EvFrom (j :: js) ev) ∧
+    mapIds (mapAfter j a calls r x).2.2.2.1 = j :: mapIds x.2.2.2.1 ∧
+    (mapAfter j a calls r x).2.2.2.2 = x.2.2.2.2 := by
+  have mono : ∀ ev, EvFrom js ev → EvFrom (j :: js) ev := by
+    intro ev; cases ev <;> simp [EvFrom] <;> intro h <;> exact Or.inr h
+  obtain ⟨res, evs, fs', us', b'⟩ := x
+  cases res with
+  | item v =>
+    simp only [mapAfter]
+    split
+    · refine ⟨?_, by simp [mapIds], rfl⟩
+      intro ev hev
+      simp only [List.mem_append, List.mem_singleton] at hev
+      rcases hev with hev | rfl
+      · exact mono ev (h ev hev)
+      · simp [EvFrom]
+    · refine ⟨?_, by simp [mapIds], rfl⟩
+      intro ev hev
+      simp only [List.mem_append, List.mem_singleton] at hev
+      rcases hev with hev | rfl
+      · exact mono ev (h ev hev)
+      · simp [EvFrom]
+  | done => exact ⟨fun ev hev => mono ev (h ev hev), by simp [mapAfter, mapIds], rfl⟩
+  | raised e => exact ⟨fun ev hev => mono ev (h ev hev), by simp [mapAfter, mapIds], rfl⟩
+
+theorem dumpAfter_evs (c : Nat) (x : Res × List Ev × FS × List Upper × Bottom) :
+    (dumpAfter c x).2.1 = x.2.1 ∧ mapIds (dumpAfter c x).2.2.2.1 = mapIds x.2.2.2.1 ∧
+    (dumpAfter c x).2.2.2.2 = x.2.2.2.2 := by
+  obtain ⟨res, evs, fs', us', b'⟩ := x
+  cases res with
+  | item v => simp [dumpAfter, mapIds]
+  | done =>
+    simp only [dumpAfter]
+    split <;> simp [mapIds]
+  | raised e => simp [dumpAfter, mapIds]
+
+/-- on top of `_load_flow` a pull produces only events of the map elements of the chain -/
+theorem nextUppers_load_evs : ∀ (us : List Upper) (fs : FS) (b : Bottom), b.isLoad = true →
+    (∀ ev, ev ∈ (nextUppers fs us b).2.1 → EvFrom (mapIds us) ev) ∧
+    mapIds (nextUppers fs us b).2.2.2.1 = mapIds us ∧
+    (nextUppers fs us b).2.2.2.2.isLoad = true
+  | [], fs, b, hb => by
+    obtain ⟨h1, h2⟩ := nextBottom_load_evs fs b hb
+    simp only [nextUppers]
+    exact ⟨by simp [h1], by trivial, h2⟩
+  | .map j a calls r true :: us, fs, b, hb => by simp [nextUppers, hb]
+  | .map j a calls r false :: us, fs, b, hb => by
+    obtain ⟨h1, h2, h3⟩ := nextUppers_load_evs us fs b hb
+    obtain ⟨g1, g2, g3⟩ := mapAfter_evs j a calls r (nextUppers fs us b) (mapIds us) h1
+    simp only [nextUppers, mapIds]
+    exact ⟨g1, by rw [g2, h2], by rw [g3]; exact h3⟩
+  | .dump c .dead :: us, fs, b, hb => by simp [nextUppers, hb]
+  | .dump c .fresh :: us, fs, b, hb => by
+    obtain ⟨h1, h2, h3⟩ := nextUppers_load_evs us (fs.openTmpW c) b hb
+    obtain ⟨g1, g2, g3⟩ := dumpAfter_evs c (nextUppers (fs.openTmpW c) us b)
+    simp only [nextUppers, mapIds]
+    exact ⟨by rw [g1]; exact h1, by rw [g2, h2], by rw [g3]; exact h3⟩
+  | .dump c .active :: us, fs, b, hb => by
+    obtain ⟨h1, h2, h3⟩ := nextUppers_load_evs us fs b hb
+    obtain ⟨g1, g2, g3⟩ := dumpAfter_evs c (nextUppers fs us b)
+    simp only [nextUppers, mapIds]
+    exact ⟨by rw [g1]; exact h1, by rw [g2, h2], by rw [g3]; exact h3⟩
+
+theorem drive_load_evs : ∀ (k : Nat) (fs : FS) (ch : Chain), ch.bottom.isLoad = true →
+    ∀ ev, ev ∈ (drive k fs ch).evs → EvFrom (mapIds ch.uppers) ev
+  | 0, _, _, _ => by simp [drive]
+  | k + 1, fs, ch, hb => by
+    obtain ⟨h1, h2, h3⟩ := nextUppers_load_evs ch.uppers fs ch.bottom hb
+    rcases hn : nextUppers fs ch.uppers ch.bottom with ⟨res, evs, fs', us', b'⟩
+    rw [hn] at h1 h2 h3
+    have hnext : next fs ch = (res, evs, fs', ⟨us', b'⟩) := by simp [next, hn]
+    cases res with
+    | item v =>
+      have ih := drive_load_evs k fs' ⟨us', b'⟩ h3
+      simp only [drive, hnext]
+      intro ev hev
+      simp only [List.mem_append] at hev
+      rcases hev with hev | hev
+      · exact h1 ev hev
+      · have := ih ev hev
+        simpa [h2] using this
+    | done => simp only [drive, hnext]; exact h1
+    | raised e => simp only [drive, hnext]; exact h1
+
+/-- the map generators of a built chain are those it started with and elements numbered from `j` on; a
+chain that starts on `_load_flow` stays on a `_load_flow` -/
+theorem buildEls_mapIds (fs : FS) : ∀ (els : List ElSpec) (j : Nat) (ch : Chain),
+    (∀ i, i ∈ mapIds (buildEls fs j els ch).uppers → i ∈ mapIds ch.uppers ∨ j ≤ i) ∧
+    (ch.bottom.isLoad = true → (buildEls fs j els ch).bottom.isLoad = true)
+  | [], _, _ => ⟨fun _ h => Or.inl h, id⟩
+  | .map a r :: els, j, ch => by
+    obtain ⟨h1, h2⟩ := buildEls_mapIds fs els (j + 1) ⟨.map j a 0 r false :: ch.uppers, ch.bottom⟩
+    rw [buildEls]
+    refine ⟨fun i hi => ?_, h2⟩
+    rcases h1 i hi with h | h
+    · simp only [mapIds, List.mem_cons] at h
+      rcases h with rfl | h
+      · exact Or.inr (Nat.le_refl _)
+      · exact Or.inl h
+    · exact Or.inr (by omega)
+  | .cache c rc :: els, j, ch => by
+    rw [buildEls]
+    split
+    · obtain ⟨h1, h2⟩ := buildEls_mapIds fs els (j + 1) ⟨[], .load c .fresh []⟩
+      refine ⟨fun i hi => ?_, fun _ => h2 rfl⟩
+      rcases h1 i hi with h | h
+      · simp [mapIds] at h
+      · exact Or.inr (by omega)
+    · obtain ⟨h1, h2⟩ := buildEls_mapIds fs els (j + 1) ⟨.dump c .fresh :: ch.uppers, ch.bottom⟩
+      refine ⟨fun i hi => ?_, h2⟩
+      rcases h1 i hi with h | h
+      · exact Or.inl (by simpa [mapIds] using h)
+      · exact Or.inr (by omega)
+
 end Lena.C18
